@@ -218,6 +218,18 @@ pub fn consume_rules(pairs: Pairs<'_, Rule>) -> Result<Vec<AstRule>, Vec<Error<R
     }
 }
 
+/// Verification hook: the reader proper, i.e. `consume_rules` without the validation of its result,
+/// so that what was read can be observed also for grammars the validator goes on to reject.
+#[cfg(pest_parser_pest_verif)]
+pub fn verif_consume_rules_unvalidated(
+    pairs: Pairs<'_, Rule>,
+) -> Result<Vec<AstRule>, Vec<Error<Rule>>> {
+    Ok(consume_rules_with_spans(pairs)?
+        .into_iter()
+        .map(convert_rule)
+        .collect())
+}
+
 /// A helper function to rename verbose rules
 /// for the sake of better error messages
 #[inline]
